@@ -123,6 +123,7 @@ type caseListOut struct {
 type caseList struct {
 	name, typ, checker string // Definition <name> : list <typ>; mismatch function <checker>
 	items, labels      []string
+	sameAs             *caseList // when set: no own definition, the checker runs over that list's cases
 }
 
 func (c *caseList) add(item, label string) {
@@ -145,7 +146,11 @@ func writeShards(outDir, prop, header string, lists []*caseList, perShard int) [
 		sb.WriteString(header)
 		cf := caseFile{File: fmt.Sprintf("%s/Case_%s_%d.v", outDir, prop, k)}
 		var ms []string
-		for _, l := range lists {
+		for _, l0 := range lists {
+			l := l0
+			if l0.sameAs != nil {
+				l = l0.sameAs
+			}
 			lo, hi := k*perShard, (k+1)*perShard
 			if lo > len(l.items) {
 				lo = len(l.items)
@@ -153,9 +158,11 @@ func writeShards(outDir, prop, header string, lists []*caseList, perShard int) [
 			if hi > len(l.items) {
 				hi = len(l.items)
 			}
-			fmt.Fprintf(&sb, "Definition %s : list %s := [\n %s\n].\n", l.name, l.typ, strings.Join(l.items[lo:hi], ";\n "))
-			ms = append(ms, fmt.Sprintf("%s %s", l.checker, l.name))
-			cf.Lists = append(cf.Lists, caseListOut{Name: l.name, Labels: l.labels[lo:hi]})
+			if l0.sameAs == nil {
+				fmt.Fprintf(&sb, "Definition %s : list %s := [\n %s\n].\n", l.name, l.typ, strings.Join(l.items[lo:hi], ";\n "))
+			}
+			ms = append(ms, fmt.Sprintf("%s %s", l0.checker, l.name))
+			cf.Lists = append(cf.Lists, caseListOut{Name: l0.name, Labels: l.labels[lo:hi]})
 		}
 		if len(ms) == 1 {
 			ms = append(ms, "@nil nat")
